@@ -1,6 +1,6 @@
 (* Props/C31.v — Vector search is sound and durable.
    Only statements, `exact`, and Print Assumptions. *)
-From NDB Require Import Vector.Hnsw Vector.Hnsw_proofs Vector.Hnsw_exact Vector.Hnsw_reopen.
+From NDB Require Import Vector.Hnsw Vector.Hnsw_proofs Vector.Hnsw_exact Vector.Hnsw_reopen Vector.Hnsw_small Vector.Hnsw_vector.
 
 (* Soundness, for EVERY state reachable by any history (inserts with any drawn
    levels, deletions, reopens), every query and every k: at most k results, distinct
@@ -29,23 +29,29 @@ Theorem C31_search_keeps_sound : C31_search_keeps_sound_statement.
 Proof. exact search_keeps_sound. Qed.
 Print Assumptions C31_search_keeps_sound.
 
-(* "existing nodes" is refuted (K-C31-deleted): a deleted node is still returned *)
-Definition C31_deleted_refuted_statement : Prop :=
-  exists pr ops q k ids id,
-    result_ids pr ops q k = Some ids /\ In (ODelete id) ops /\ In id ids.
-Theorem C31_deleted_refuted : C31_deleted_refuted_statement.
-Proof. exact deleted_refuted. Qed.
-Print Assumptions C31_deleted_refuted.
+(* The engine-level search (GraphEngine::search_vector: all candidates of the index search, the
+   deleted nodes left out, the first k), for EVERY reachable state, every set `del` of deleted
+   nodes, every query and k: the guarantees above and no returned node is deleted.
+   (Repaired defect K-C31-deleted: the index search itself still returns deleted nodes.) *)
+Definition C31_search_vector_sound_statement : Prop :=
+  forall pr ops ix del q k ix' r,
+    run pr empty_index ops = Ok ix ->
+    search_vector pr ix del q k = Ok (ix', r) ->
+    length r <= k /\ NoDup (map fst r) /\ sorted_by_dist r /\
+    (forall id d, In (id, d) r -> (exists v, inserted ops id v /\ d = dist2 q v) /\ ~ In id del).
+Theorem C31_search_vector_sound : C31_search_vector_sound_statement.
+Proof. exact search_vector_sound. Qed.
+Print Assumptions C31_search_vector_sound.
 
-(* ... and holds for histories outside the class (no deletion) *)
-Definition C31_search_existing_statement : Prop :=
-  forall pr ops q k ids,
-    (forall id, ~ In (ODelete id) ops) ->
-    result_ids pr ops q k = Some ids ->
-    forall id, In id ids -> (exists v, inserted ops id v) /\ ~ In (ODelete id) ops.
-Theorem C31_search_existing : C31_search_existing_statement.
-Proof. exact search_existing. Qed.
-Print Assumptions C31_search_existing.
+(* with the nodes the history deleted: only existing nodes are returned *)
+Definition C31_search_vector_live_statement : Prop :=
+  forall pr ops ix q k ix' r,
+    run pr empty_index ops = Ok ix ->
+    search_vector pr ix (deleted ops) q k = Ok (ix', r) ->
+    forall id d, In (id, d) r -> ~ In (ODelete id) ops.
+Theorem C31_search_vector_live : C31_search_vector_live_statement.
+Proof. exact search_vector_live. Qed.
+Print Assumptions C31_search_vector_live.
 
 (* "unchanged by reopening" is refuted (K-C31-stale-vector): 509 vectors, node 254 gets a new
    vector, one more insert splits the full leaf of the vector tree between the two cells of
@@ -87,18 +93,50 @@ Theorem C31_reopen_same_checked : C31_reopen_same_checked_statement.
 Proof. exact reopen_same_checked. Qed.
 Print Assumptions C31_reopen_same_checked.
 
-(* Full statements of the parts of the property that are NOT proved in this form: *)
+(* Exactness on small indexes, FULL for clean histories: every history in which no node gets a
+   vector twice and no reopen happens (deletions allowed; ids are u32), as long as the graph tree
+   has not split into several pages: if the index holds at most 2m+1 vectors (and at most
+   ef_search), a search that answers returns exactly the brute-force k nearest by (distance, id)
+   of the stored vectors.  Proof: layer 0 stays connected and is never truncated below 2m+1
+   (invariant Hnsw_small.Good, preserved by insert), the search is exhaustive on a connected
+   layer (Hnsw_exact). *)
 Definition distinct_ids (ops : list op) : Prop :=
   NoDup (flat_map (fun o => match o with OInsert id _ _ => [id] | _ => [] end) ops).
+Definition ids_u32 (ops : list op) : Prop :=
+  forall id, In id (flat_map (fun o => match o with OInsert id _ _ => [id] | _ => [] end) ops) -> (id < 4294967296)%N.
 Definition C31_small_exact_full_statement : Prop :=
   forall pr ops ix q k ix' r,
     run pr empty_index ops = Ok ix ->
-    distinct_ids ops -> ~ In OReopen ops ->
+    distinct_ids ops -> ids_u32 ops -> ~ In OReopen ops ->
     length (stored ops []) <= 2 * p_m pr + 1 -> length (stored ops []) <= p_efs pr ->
     1 <= p_m pr -> 1 <= p_efc pr ->
     length (pages (gt (i_env ix))) = 1 ->          (* the graph tree has not split *)
     search pr ix q k = Ok (ix', r) ->
     r = brute_force (stored ops []) q k.
+Theorem C31_small_exact_full : C31_small_exact_full_statement.
+Proof. exact small_exact_full. Qed.
+Print Assumptions C31_small_exact_full.
+
+(* Unchanged by reopening, FULL for small clean histories: no node gets a vector twice, no
+   earlier reopen, at most 2m+1 vectors, and neither B-tree has split into several pages: reopen
+   succeeds and every search that answered returns the same list afterwards.  (Beyond one page
+   the statement is not expected to hold in general even without re-insertion: the meta record
+   is written once per insert under ONE key, and a split triggered by such a write places the
+   new record behind the older ones, which would leave a stale entry point -- no witness was
+   constructed; with re-inserted vectors see C31_reopen_refuted.) *)
+Definition C31_reopen_same_small_statement : Prop :=
+  forall pr ops ix q k ix' r,
+    run pr empty_index ops = Ok ix ->
+    distinct_ids ops -> ids_u32 ops -> ~ In OReopen ops ->
+    length (stored ops []) <= 2 * p_m pr + 1 -> 1 <= p_m pr -> 1 <= p_efc pr ->
+    length (pages (gt (i_env ix))) = 1 -> length (pages (vt (i_env ix))) = 1 ->
+    search pr ix q k = Ok (ix', r) ->
+    exists ix2 ix2', reopen ix = Ok ix2 /\ search pr ix2 q k = Ok (ix2', r).
+Theorem C31_reopen_same_small : C31_reopen_same_small_statement.
+Proof. exact reopen_same_small. Qed.
+Print Assumptions C31_reopen_same_small.
+
+(* Statement that is NOT proved in this generality (see above): *)
 Definition C31_reopen_same_full_statement : Prop :=
   forall pr ops ix ix2 q k ix' r,
     run pr empty_index ops = Ok ix ->
